@@ -14,7 +14,7 @@ ATOMS = ['a', 'b', 'c']
 def programs(ctx):
     rng = ctx.rng('programs')
     progs = []
-    n = 500 if ctx.quick else 4000
+    n = 500 if ctx.quick else 2000
     for i in range(n):
         atoms = ATOMS[:rng.choice([2, 2, 3])]
         maxfut = rng.choice([1, 2, 2, 3]) if ctx.quick else rng.choice([1, 2, 3, 4])
@@ -28,7 +28,7 @@ def programs(ctx):
 
 def run(ctx):
     H = 4 if ctx.quick else 5
-    maxbits = 12 if ctx.quick else 15
+    maxbits = 12 if ctx.quick else 13
     progs = programs(ctx)
     recs = s4.compare(ctx, [p for _, p in progs], H, maxbits)
     res = summarize(ctx, progs, recs, H, maxbits, 'C02')
